@@ -82,6 +82,7 @@ pub fn profile(name: &str) -> Profile {
     match name {
         "overload" => Profile { name: "overload", max_threads: 2, small_rings: true, small_caps: true, len_lo: 30, len_hi: 90, w_collector: 5, adapters: false, cancel: true, exits: true, force_cancelable: None },
         "adapters" => Profile { name: "adapters", max_threads: 2, small_rings: false, small_caps: false, len_lo: 30, len_hi: 80, w_collector: 6, adapters: true, cancel: true, exits: false, force_cancelable: None },
+        "collect" => Profile { name: "collect", max_threads: 1, small_rings: false, small_caps: false, len_lo: 30, len_hi: 90, w_collector: 3, adapters: false, cancel: false, exits: false, force_cancelable: None },
         "local" => Profile { name: "local", max_threads: 1, small_rings: false, small_caps: false, len_lo: 30, len_hi: 100, w_collector: 2, adapters: false, cancel: false, exits: false, force_cancelable: None },
         "default" => Profile { name: "default", max_threads: 3, small_rings: false, small_caps: false, len_lo: 20, len_hi: 80, w_collector: 7, adapters: true, cancel: true, exits: true, force_cancelable: Some(false) },
         "cancelable" => Profile { name: "cancelable", max_threads: 3, small_rings: false, small_caps: false, len_lo: 20, len_hi: 80, w_collector: 7, adapters: true, cancel: true, exits: true, force_cancelable: Some(true) },
@@ -415,8 +416,11 @@ impl<'a> Gen<'a> {
                     NestKind::Poll { a, meth } => {
                         let res = match *meth {
                             "next" => *self.rng.pick(&["pending", "item", "final"]),
-                            "start" => "final",
-                            _ => *self.rng.pick(&["pending", "final"]),
+                            "start" => *self.rng.pick(&["final", "final", "err"]),
+                            "fut" => *self.rng.pick(&["pending", "final"]),
+                            // sink methods: the inner sink may fail (Ready(Err)); only a completed
+                            // close (Ok or Err) ends the span
+                            _ => *self.rng.pick(&["pending", "final", "final", "err"]),
                         };
                         cands.push((8, c(vec![s("polle"), s(a), s(meth), s(res)])));
                     }
@@ -468,7 +472,7 @@ impl<'a> Gen<'a> {
                     }
                 }
             }
-            cands.push((2, c(vec![s("lcstart"), s(self.next_handle + 1)])));
+            cands.push((if self.prof.name == "collect" { 9 } else { 2 }, c(vec![s("lcstart"), s(self.next_handle + 1)])));
         }
         if let Some((k, id)) = top {
             match k {
@@ -488,7 +492,7 @@ impl<'a> Gen<'a> {
                 i -= 1;
             }
             if i >= 1 && i < th.scoped.len() && th.scoped[i - 1].0 == 'c' && th.scoped[..i - 1].iter().all(|(k, _)| *k == 'l') {
-                cands.push((3, c(vec![s("lccollect"), s(th.scoped[i - 1].1), s(self.next_handle + 1)])));
+                cands.push((if self.prof.name == "collect" { 12 } else { 3 }, c(vec![s("lccollect"), s(th.scoped[i - 1].1), s(self.next_handle + 1)])));
             }
         }
         let locals_out: Vec<u64> = th.nest.iter().filter_map(|n| n.local).collect();
@@ -517,9 +521,9 @@ impl<'a> Gen<'a> {
             let ls = *self.rng.pick(&self.lsets);
             if !all.is_empty() {
                 let p = self.pick_span(&all);
-                cands.push((3, c(vec![s("pushc"), s(p), s(ls)])));
+                cands.push((if self.prof.name == "collect" { 8 } else { 3 }, c(vec![s("pushc"), s(p), s(ls)])));
             }
-            cands.push((1, c(vec![s("torec"), s(ls), format!("{:x}", 0x77u128 + self.rng.below(5) as u128), format!("{:x}", (self.rng.below(3) as u64).wrapping_mul(0x8000_0000_0000_0001))])));
+            cands.push((if self.prof.name == "collect" { 4 } else { 1 }, c(vec![s("torec"), s(ls), format!("{:x}", 0x77u128 + self.rng.below(5) as u128), format!("{:x}", (self.rng.below(3) as u64).wrapping_mul(0x8000_0000_0000_0001))])));
         }
         if !all.is_empty() {
             let p = self.pick_span(&all);
@@ -540,7 +544,8 @@ impl<'a> Gen<'a> {
                 cands.push((2, c(vec![s("cancel"), s(p)])));
             }
         }
-        cands.push((2, c(vec![s("curl")])));
+        // the context seen through the local parent matters most right under a guard
+        cands.push((if matches!(top, Some(('g', _))) { 7 } else { 2 }, c(vec![s("curl")])));
         if !free.is_empty() {
             let p = *self.rng.pick(&free);
             cands.push((7, c(vec![s("drops"), s(p)])));
